@@ -2,6 +2,8 @@ import Zed.Model.Sexp
 import Zed.Model.AggMonoid
 import Zed.Model.AggGroupby
 import Zed.Model.AggJoin
+import Zed.Model.AggJoinPlan
+import Zed.Model.AggSortedSpill
 /-!
   Driver glue for C10.
 
@@ -9,11 +11,22 @@ import Zed.Model.AggJoin
         v = `(<tok> <typ> <null 0|1> <kind n|u|i|f> <num> <bool -|0|1> <avg -|int>)`
         → `direct=<r> partial=<r>`: the aggregate folded over the concatenated chunks, and the
           per-chunk partials combined in chunk order.
-  `(C10 groupby <limit> <row> …)`          row = `(<keytok> (<rank> …) <count> <sum> (<id> …))`
-        → `spills=<n> (<keytok> <count> <sum> (<ids sorted>)) …` groups sorted by keytok
+  `(C10 groupby <limit> <row> …)`          row = `(<keytok> (<rank> …) <contrib>)`,
+        contrib = `(v <id> <aval>|- <stok>)`  a direct input row: the aggregates' argument value
+                                              (`-` = missing) and the token of the dcount argument
+                | `(st <count> <sum> <min> <max> <avgsum> <avgcount> (<id> …) (<utok> …) (<dtok> …))`
+                                              a partial row (the state a partials-out stage emitted)
+        → `spills=<n> (<keytok> (st …)) …` groups sorted by keytok; the state is the row of
+          count(), sum(v), min(v), max(v), avg(v), union(id), union(v), dcount(s) — its rendering
+          is exactly what the next stage accepts as `(st …)`
   `(C10 naive <row> …)`                    same rows → naive groups, same format (spills=0)
-  `(C10 sorted <batch> …)`                 batch = `(<row> …)`; the first rank is the primary key
-        (already oriented: ascending = the declared direction) → same format
+  `(C10 sorted <limit> <batch> …)`         batch = `(<row> …)`; sorted-input mode WITH spills; the
+        first rank is the primary key (already oriented: ascending = the declared direction);
+        maxSpillKey is taken from the last row of the spilled table → same format
+  `(C10 joinfull <style> <lleg> <rleg> (<l> …) (<r> …))`   l, r = `(<rank>|null <id>)` in the
+        order the leg's source delivers them; leg = - | asc | desc (a sort operator in the leg)
+        | fasc | fdesc (declared sorted source); the model plans the join (right-style swap,
+        direction, inserted sorts) and runs it → `(<lid>|- <rid>|-) …` in output order
   `(C10 join <kind> (<l> …) (<r> …))`     l, r = `(<rank> <id>)`; both sides are first sorted
         stably by rank (join.New inserts the sort) → `(<lid> <rid>|-) …` in output order
   `(C10 joinraw <kind> (<l> …) (<r> …))`  the same without the sort: rows in arrival order, the
@@ -96,28 +109,69 @@ def lexLe : List Int → List Int → Bool
 
 def keyLe (a b : Key) : Bool := lexLe a.ranks b.ranks
 
-abbrev St := Nat × Int × List Nat
-def stMon : Mon St := ⟨fun a b => (a.1 + b.1, a.2.1 + b.2.1, a.2.2 ++ b.2.2), (0, 0, [])⟩
-
-def rowOf : Sexp → Option (Key × St)
-  | .list [.atom tok, .list ranks, .atom cnt, .atom sum, .list ids] => do
-    let rs ← ranks.mapM intOf
-    let c ← cnt.toNat?
-    let s ← sum.toInt?
-    let is ← ids.mapM natOf
-    pure (⟨tok, rs⟩, (c, s, is))
-  | _ => none
+/-- the row of aggregates count(), sum(v), min(v), max(v), avg(v), union(id), union(v), dcount(s) -/
+structure RSt where
+  count : Nat := 0
+  sum : MathSt := {}
+  min : MathSt := {}
+  max : MathSt := {}
+  avg : Int × Nat := (0, 0)
+  ids : List Nat := []
+  uset : List String := []
+  dset : List String := []
+  deriving Repr
 
 def insNat (x : Nat) : List Nat → List Nat
   | [] => [x]
-  | y :: ys => if x ≤ y then x :: y :: ys else y :: insNat x ys
+  | y :: ys => if x < y then x :: y :: ys else if x == y then y :: ys else y :: insNat x ys
 
-def showGroup (g : Key × St) : String :=
-  "(" ++ g.1.tok ++ " " ++ toString g.2.1 ++ " " ++ toString g.2.2.1 ++ " (" ++
-    " ".intercalate ((g.2.2.2.foldr insNat []).map toString) ++ "))"
+def rMon : Mon RSt :=
+  ⟨fun a b => { count := a.count + b.count, sum := sumMon.op a.sum b.sum, min := minMon.op a.min b.min,
+                max := maxMon.op a.max b.max, avg := avgMon.op a.avg b.avg,
+                ids := b.ids.foldr insNat a.ids, uset := b.uset.foldr insertTok a.uset,
+                dset := b.dset.foldr insertTok a.dset }, {}⟩
 
-def showGroups (spills : Nat) (gs : List (Key × St)) : String :=
-  let sorted := isort (fun (a b : Key × St) => a.1.tok ≤ b.1.tok) gs
+/-- Aggregator.Apply of every aggregate of the row to one input record -/
+def ofInput (id : Nat) (v : Option AVal) (stok : String) : RSt :=
+  match v with
+  | none => { count := 1, ids := [id], dset := [stok] }
+  | some v => { count := 1, sum := mathF v, min := mathF v, max := mathF v, avg := avgF v, ids := [id],
+                uset := if v.isNull then [] else [v.tok], dset := [stok] }
+
+def mathOf (s : String) : Option MathSt :=
+  match s.splitOn ":" with
+  | [k, a] => do
+    let k ← Kind.ofStr k
+    if a == "null" then pure { kind := k } else pure { kind := k, acc := some (← a.toInt?) }
+  | _ => none
+
+def contribOf : Sexp → Option RSt
+  | .list [.atom "v", .atom id, av, .atom stok] => do
+    let id ← id.toNat?
+    match av with
+    | .atom "-" => pure (ofInput id none stok)
+    | _ => pure (ofInput id (some (← avalOf av)) stok)
+  | .list [.atom "st", .atom c, .atom su, .atom mn, .atom mx, .atom as, .atom ac, .list ids, .list us, .list ds] => do
+    pure { count := (← c.toNat?), sum := (← mathOf su), min := (← mathOf mn), max := (← mathOf mx),
+           avg := ((← as.toInt?), (← ac.toNat?)), ids := (← ids.mapM natOf),
+           uset := (← us.mapM atomOf), dset := (← ds.mapM atomOf) }
+  | _ => none
+
+def rowOf : Sexp → Option (Key × RSt)
+  | .list [.atom tok, .list ranks, c] => do
+    let rs ← ranks.mapM intOf
+    pure (⟨tok, rs⟩, (← contribOf c))
+  | _ => none
+
+def showSt (s : RSt) : String :=
+  "(st " ++ toString s.count ++ " " ++ showMath s.sum ++ " " ++ showMath s.min ++ " " ++ showMath s.max ++ " " ++
+    toString s.avg.1 ++ " " ++ toString s.avg.2 ++ " (" ++ " ".intercalate (s.ids.map toString) ++ ") " ++
+    showList s.uset ++ " " ++ showList s.dset ++ ")"
+
+def showGroup (g : Key × RSt) : String := "(" ++ g.1.tok ++ " " ++ showSt g.2 ++ ")"
+
+def showGroups (spills : Nat) (gs : List (Key × RSt)) : String :=
+  let sorted := isort (fun (a b : Key × RSt) => a.1.tok ≤ b.1.tok) gs
   "spills=" ++ toString spills ++ " " ++ " ".intercalate (sorted.map showGroup)
 
 def primOf (k : Key) : Int := k.ranks.headD 0
@@ -132,6 +186,21 @@ def jrowsOf : Sexp → Option (List (Int × Nat))
   | _ => none
 
 def intLe (a b : Int) : Bool := a ≤ b
+
+def jkrowOf : Sexp → Option (Join.JKey × Nat)
+  | .list [.atom r, .atom id] => do
+    let id ← id.toNat?
+    if r == "null" then pure (none, id) else pure (some (← r.toInt?), id)
+  | _ => none
+
+def jkrowsOf : Sexp → Option (List (Join.JKey × Nat))
+  | .list rs => rs.mapM jkrowOf
+  | _ => none
+
+def showRow : Join.Row (Join.JKey × Nat) (Join.JKey × Nat) → String
+  | .both a b => "(" ++ toString a.2 ++ " " ++ toString b.2 ++ ")"
+  | .leftOnly a => "(" ++ toString a.2 ++ " -)"
+  | .rightOnly b => "(- " ++ toString b.2 ++ ")"
 
 def showOut : Join.Out (Int × Nat) (Int × Nat) → String
   | .pair a b => "(" ++ toString a.2 ++ " " ++ toString b.2 ++ ")"
@@ -148,16 +217,23 @@ def handle : List Sexp → String
   | .atom "groupby" :: .atom limit :: rows =>
     match limit.toNat?, rows.mapM rowOf with
     | some l, some rs =>
-      showGroups (spillCount stMon keyLe l rs) (groupby stMon keyLe l rs)
+      showGroups (spillCount rMon keyLe l rs) (groupby rMon keyLe l rs)
     | _, _ => "bad-op"
   | .atom "naive" :: rows =>
     match rows.mapM rowOf with
-    | some rs => showGroups 0 (naiveGroup stMon rs)
+    | some rs => showGroups 0 (naiveGroup rMon rs)
     | none => "bad-op"
-  | .atom "sorted" :: batches =>
-    match batches.mapM (fun | .list rs => rs.mapM rowOf | _ => none) with
-    | some bs => showGroups 0 (groupbySorted stMon primOf intLe bs)
-    | none => "bad-op"
+  | .atom "sorted" :: .atom limit :: batches =>
+    match limit.toNat?, batches.mapM (fun | .list rs => rs.mapM rowOf | _ => none) with
+    | some l, some bs =>
+      showGroups (if ssSpilled rMon keyLe primOf intLe (fun t => t.getLast?) l bs then 1 else 0)
+        (groupbySortedSpill rMon keyLe primOf intLe (fun t => t.getLast?) l bs)
+    | _, _ => "bad-op"
+  | [.atom "joinfull", .atom style, .atom ll, .atom rl, l, r] =>
+    match Join.Style.ofStr style, Join.Leg.ofStr ll, Join.Leg.ofStr rl, jkrowsOf l, jkrowsOf r with
+    | some st, some ll, some rl, some l, some r =>
+      " ".intercalate ((Join.joinFull st ll rl l r).map showRow)
+    | _, _, _, _, _ => "bad-op"
   | [.atom "join", .atom kind, l, r] =>
     match Join.Kind.ofStr kind, jrowsOf l, jrowsOf r with
     | some k, some l, some r =>
